@@ -242,14 +242,25 @@ def r2(ctx):
                     if isinstance(t, ast.Attribute) and t.attr == "chunked" and tail(t.value) in ("resp", "response"):
                         ctx.bad("C02.R2", key(f, norm(n)), site(f, n), "Response.chunked is overwritten outside the Response class")
     # the inputs of is_chunked()/should_close() are frozen once start_response has computed self.chunked
-    allowed_rl = {"__init__": "const", "process_headers": "any", "start_response": "const"}
+    # (a store in the function that takes the decision is fine when it happens before the decision -- the header
+    # loop -- or resets to a literal; nothing else may touch it)
+    decision = {}
+    for f, n in writers:
+        if isinstance(n.value, ast.Call) and repo.call_target(f.module, f, n.value) == RESP + ".is_chunked":
+            decision.setdefault(f.name, []).extend(f.cfg.nodes_of(n))
     for name, f in cls.methods.items():
         for n in walk_own(f.node):
             if isinstance(n, (ast.Assign, ast.AugAssign)):
                 tg = n.targets if isinstance(n, ast.Assign) else [n.target]
                 for t in tg:
                     if isinstance(t, ast.Attribute) and isinstance(t.value, ast.Name) and t.value.id == "self" and t.attr == "response_length":
-                        okk = name in allowed_rl and (allowed_rl[name] == "any" or isinstance(n.value, ast.Constant))
+                        if isinstance(n.value, ast.Constant) and name in ("__init__",) + tuple(decision):
+                            okk = True
+                        elif name in decision:
+                            after = f.cfg.reachable([(d, "next") for d in decision[name]], follow_exc=True)
+                            okk = not any(x in after for x in f.cfg.nodes_of(n))
+                        else:
+                            okk = False
                         ctx.check("C02.R2", okk, key(f, "response_length-writer|" + norm(n)), site(f, n),
                                   "Response.response_length is changed in %s after the framing decision was taken: is_chunked() re-evaluated later (sendfile) disagrees with the "
                                   "`Transfer-Encoding: chunked` header already announced" % name, "response_length only set while headers are processed")
